@@ -21,6 +21,26 @@ for n in sorted(os.listdir(os.path.join(ROOT, "seeded"))):
         verdict, sigs = "; ".join(parts), ", ".join(f"`{s}`" for s in sg[:5])
     note = m.get("check_note", "")
     rows.append(f"| {n} | {m['breaks'][:160]} | {verdict} | {sigs} {note} |")
+own = other = missed = notrun = 0
+for n in sorted(os.listdir(os.path.join(ROOT, "seeded"))):
+    d = os.path.join(ROOT, "seeded", n)
+    if not os.path.exists(os.path.join(d, "meta.json")):
+        continue
+    m = json.load(open(os.path.join(d, "meta.json")))
+    if not os.path.exists(os.path.join(d, "result.json")):
+        notrun += 1
+        continue
+    r = json.load(open(os.path.join(d, "result.json")))["results"]
+    c = {p: (x["exit"] == 1 and x["violations"] > 0) for p, x in r.items()}
+    if c.get(m["property"]):
+        own += 1
+    elif any(c.values()):
+        other += 1
+    else:
+        missed += 1
+if "--summary" in sys.argv:
+    print(f"{own + other + missed + notrun} changes: {own} caught by the quick check of their own property, {other} only by the check of another property, {missed} not caught, {notrun} not run")
+    sys.exit(0)
 print("| change | what it breaks | quick check of its property | signatures reported |")
 print("|---|---|---|---|")
 print("\n".join(rows))
